@@ -230,6 +230,7 @@ ATOMS = dict(
     tokparam=[SP, HT, CR, LF, B("a"), B("="), B(";"), B("&"), B(","), B("?"), B("\""), B("\\"), B("@"), [200]],
     tokparam_deep=[SP, CR, B("a"), B("="), B(";"), B("&"), B("\"")],
     nameaddr_deep=[SP, CR, B("a"), B("<b>"), B(";"), B("="), B("\""), B(",")],
+    hdrnum=[SP, CR, LF, B("l:"), B("Expires:"), B("CSeq:"), B("123456789"), B("0"), B("9"), B(" ACK"), B("x")],
     quoted=[SP, CR, LF, B("a"), B("\""), B("\\"), [127], [1], [200]],
 )
 F_TOK = [0, 1, 2, 4, 8, 9, 12, 16, 32, 64, 72, 128, 136]
@@ -247,6 +248,7 @@ def cfgs_sub(start=(0,)):
     fam.append(("hdrline", "hdr", st([k("hdrline"), k("hdrlineb", ccap=1), k("headers", hcap=1), k("headersb", hcap=2, ccap=1)]), 5, 7))
     fam.append(("hdrvals", "hdrv", st([k("hdrlineb", ccap=1), k("headersb", hcap=0, ccap=0), k("headersb", hcap=3, ccap=2)]), 4, 6))
     fam.append(("hdrnameaddr", "hdrna", st([k("hdrlineb", ccap=1), k("headersb", hcap=0, ccap=0), k("headersb", hcap=3, ccap=2)]), 4, 5))
+    fam.append(("hdrnum", "hdrnum", st([k("hdrlineb", ccap=1), k("headersb", hcap=1, ccap=0)]), 4, 5))
     fam.append(("nameaddr", "nameaddr", st([k("nameaddr", flags=h) for h in (1, 8, 13)] + [k("onepai")]), 4, 5))
     fam.append(("nameaddr_deep", "nameaddr_deep", st([k("nameaddr", flags=h) for h in (2, 8)]), 6, 8))
     fam.append(("contacts", "contacts", st([k("contacts", ccap=c) for c in (0, 1, 2)] + [k("pais")]), 5, 6))
@@ -273,12 +275,38 @@ def mc_cfg(consts, invariants, extra=""):
     return ("SPECIFICATION Spec\nVIEW view\nCONSTANTS\n" + "\n".join("  " + c for c in consts) +
             "\nINVARIANTS " + " ".join(invariants) + "\nCHECK_DEADLOCK FALSE\n" + extra)
 
+def msg_models(ctx, names, inv=("ResumeEqFresh", "StableM", "OffsSane")):
+    """Stream instances of the header-line / header-block / whole-message transcriptions (MC_Msg.tla)"""
+    table = dict(hdr=("AtomsHdr", "CfgsHdr", 4, 6, 16), hdrv=("AtomsHdrV", "CfgsHdrV", 2, 3, 60), hdrna=("AtomsHdrNA", "CfgsHdrV", 2, 3, 80),
+                 msg=("AtomsMsg", "CfgsMsg", 2, 3, 90), msgs=("AtomsMsgS", "CfgsMsgAll", 3, 4, 90))
+    for n in names:
+        atoms, cfgs, nq, nt, maxlen = table[n]
+        cfg = mc_cfg(["OffsMod = 65536", "Atoms <- " + atoms, "MaxLen = %d" % maxlen, "MaxAtoms = %d" % (nq if ctx.quick else nt),
+                      "Cfgs <- " + cfgs, "Junk = 34", "EmitOn = TRUE"], list(inv) + ["Emit", "EmitTwo", "EmitByte"])
+        ctx.tlc("MC_Msg", ("MC_Msg_%s_run.cfg" % n, cfg), workers=8, timeout=3000)
+
+def sub_models(ctx, level):
+    """Stream instances of the other transcribed sub-parsers (agents' modules): a representative subset in the quick
+    tier, every configuration in the thorough tier"""
+    import glob
+    if ctx.quick:
+        runs = [("MC_TokParam", "MC_TokParam_tok_f4_quote.cfg"), ("MC_TokParam", "MC_TokParam_up_f64_qm.cfg"), ("MC_TokParam", "MC_TokParam_uh_f136_amp.cfg"),
+                ("MC_TokParam", "MC_TokParam_sq_a.cfg"), ("MC_FLine", "MC_FLine_bad.cfg")][:level]
+    else:
+        runs = [("MC_TokParam", os.path.basename(f)) for f in sorted(glob.glob(os.path.join(V, "spec", "MC_TokParam_*.cfg")))] + \
+               [("MC_FLine", "MC_FLine_%s.cfg" % c) for c in ("rpl", "req", "tok", "bad")]
+    na = sorted(glob.glob(os.path.join(V, "spec", "MC_NameAddr_*.cfg")))
+    runs += [("MC_NameAddr", os.path.basename(f)) for f in (na if not ctx.quick else [f for f in na if os.path.basename(f) in
+             ("MC_NameAddr_struct.cfg", "MC_NameAddr_contacts.cfg", "MC_NameAddr_pais.cfg", "MC_NameAddr_known.cfg")][:level])]
+    for mod, cfg in runs:
+        ctx.tlc(mod, cfg, workers=8, timeout=3000)
+
 def scalar_models(ctx, kinds=("uint", "clen", "callid", "cseq"), inv=("ResumeEqFresh", "Stable", "OffsSane")):
     n = 5 if ctx.quick else 7
     for k in kinds:
         atoms = "AtomsCSeq" if k == "cseq" else "AtomsNumHT"
         cfg = mc_cfg(["OffsMod = 65536", 'Kind = "%s"' % k, "Atoms <- " + atoms, "MaxLen = %d" % (n + (1 if k == "cseq" else 0)),
-                      "Cfgs <- Cfgs03", "Junk = 34", "EmitOn = TRUE"], list(inv) + ["Emit"])
+                      "MaxAtoms = 99", "Cfgs <- Cfgs03", "Junk = 34", "EmitOn = TRUE"], list(inv) + ["Emit", "EmitTwo", "EmitByte"])
         ctx.tlc("MC_Scalar", ("MC_Scalar_%s_run.cfg" % k, cfg), workers=8)
 
 # ------------------------------------------------------------------------------------------------
@@ -290,6 +318,8 @@ def plan_C02(ctx):
                          "(verdict, offset; values when definitive, full object state when suspended => all 2^(n-1) "
                          "schedules by induction).  non-trivial = input with >= 1 suspension and a definitive verdict.")
     scalar_models(ctx)
+    msg_models(ctx, ["hdr", "hdrv", "hdrna"])
+    sub_models(ctx, 4)
     sub_traces(ctx, 700 if ctx.quick else 4000)
     explore_sub(ctx, ["C02"], start=(0, 3))
     cleanup(ctx)
@@ -302,7 +332,14 @@ def plan_C03(ctx):
                          "incl. SP HT CR LF digits quotes). Exempt: input-end / no-more-data configurations, body extent "
                          "of a message without Content-Length.")
     scalar_models(ctx)
+    msg_models(ctx, ["hdr", "msg"] if ctx.quick else ["hdr", "hdrv", "hdrna", "msg", "msgs"])
+    sub_models(ctx, 2)
     explore_sub(ctx, ["C03"], start=(0,))
+    f1, n1 = gen_corpus(ctx, 1, "hdrs", "corpus")
+    ctx.explore(dict(mode="explore", props=["C03"], cfgs=[c for c in msg_cfgs(None) if not c["flags"] & 4][::3], inputs_file=f1, mutants=3, light=True), "msg K=1 stable")
+    f2, n2 = gen_corpus(ctx, 1 if ctx.quick else 2, "framing", "corpus", keep_every=(3 if ctx.quick else 2))
+    ctx.explore(dict(mode="explore", props=["C03"], cfgs=[mk(flags=f, hcap=h) for f in (0, 1, 2, 3) for h in (-1, 1)], inputs_file=f2, light=True), "msg framing stable")
+    cleanup(ctx)
     ctx.need("inputs with a suspension and a definitive verdict", ctx.nontrivial, 1000)
 
 def plan_C04(ctx):
@@ -310,8 +347,14 @@ def plan_C04(ctx):
                          "Code: every real call made by the explorations (fresh, resumed, shifted) runs under recover + watchdog; "
                          "offsets checked; every exported PField dereferenced against the visible buffer (exact capacity).")
     scalar_models(ctx)
+    msg_models(ctx, ["hdrna", "msg"] if ctx.quick else ["hdr", "hdrv", "hdrna", "msg", "msgs"])
+    sub_models(ctx, 2)
     sub_traces(ctx, 400 if ctx.quick else 2500)
     explore_sub(ctx, ["C04"], start=(0, 3), shifts=[1, 65000])
+    f1, n1 = gen_corpus(ctx, 1, "hdrs", "corpus")
+    ctx.explore(dict(mode="explore", props=["C04"], cfgs=msg_cfgs(ctx.seed), inputs_file=f1, mutants=4, light=True, shifts=[3, 65000]), "msg K=1 + mutants, sane")
+    ctx.explore(dict(mode="lookups", props=["C04"]), "total lookups", count_as_traces=False)
+    cleanup(ctx)
     ctx.need("real calls", ctx.evaluations, 100000)
 
 def plan_C11(ctx):
@@ -320,6 +363,12 @@ def plan_C11(ctx):
                          "else equal (one-shot and resumed through the first suspension).")
     scalar_models(ctx, kinds=("uint",))
     explore_sub(ctx, ["C11"], start=(0,), shifts=SHIFTS_Q if ctx.quick else SHIFTS_T)
+    f1, n1 = gen_corpus(ctx, 1, "hdrs", "corpus")
+    ctx.explore(dict(mode="explore", props=["C11"], cfgs=msg_cfgs(ctx.seed), inputs_file=f1, shifts=SHIFTS_Q if ctx.quick else SHIFTS_T, mutants=2, light=True), "msg K=1 shifted")
+    f2, n2 = gen_corpus(ctx, 1, "framing", "corpus", keep_every=(3 if ctx.quick else 1))
+    ctx.explore(dict(mode="explore", props=["C11"], cfgs=[mk(flags=fl, hcap=h, ccap=c) for fl in range(8) for (h, c) in ((-1, -1), (1, 0))],
+                     inputs_file=f2, shifts=[1, 97, 4096, 65000], light=True), "msg framing shifted")
+    cleanup(ctx)
     ctx.need("shifted parses", sum(e["stats"].get("Shifts", 0) for e in ctx.extra.get("explorations", [])), 10000)
 
 # ------------------------------------------------------------------------------------------------
@@ -421,12 +470,15 @@ def plan_C01(ctx):
         "capacity pairs, rotated) fresh parse of every prefix; K=1 messages: ALL (suspended p -> q) pairs (=> all schedules by "
         "induction, full-state equality at suspensions); K=2: q in {p+1, n} + seeded sample. non-trivial = message with a "
         "suspension and a definitive verdict.")
+    msg_models(ctx, ["msg", "msgs"])
     f1, n1 = gen_corpus(ctx, 1, "hdrs", "corpus")
     ctx.explore(dict(mode="explore", props=["C01"], cfgs=msg_cfgs(None) if not ctx.quick else msg_cfgs(ctx.seed), inputs_file=f1, mutants=2), "msg K=1 all pairs")
     f2, n2 = gen_corpus(ctx, 2, "hdrs", "corpus", keep_every=(3 if ctx.quick else 1))
     ctx.explore(dict(mode="explore", props=["C01"], cfgs=msg_cfgs(ctx.seed + 1), inputs_file=f2, mutants=1, light=True), "msg K=2 light")
     f3, n3 = gen_corpus(ctx, 1 if ctx.quick else 2, "framing", "corpus", keep_every=(7 if ctx.quick else 5))
     ctx.explore(dict(mode="explore", props=["C01"], cfgs=msg_cfgs(ctx.seed + 2), inputs_file=f3, light=True), "msg framing light")
+    f5, n5 = gen_corpus(ctx, 1, "bigclen", "corpus", keep_every=(3 if ctx.quick else 1))
+    ctx.explore(dict(mode="explore", props=["C01"], cfgs=[mk(), mk(flags=4, hcap=1, ccap=0), mk(flags=3, hcap=64, ccap=64)], inputs_file=f5), "msg out-of-range numbers, all pairs")
     if not ctx.quick:
         f4, n4 = gen_corpus(ctx, 3, "caps", "corpus")
         ctx.explore(dict(mode="explore", props=["C01"], cfgs=msg_cfgs(ctx.seed + 3), inputs_file=f4, mutants=1, light=True), "msg K=3 light")
@@ -456,6 +508,7 @@ def plan_C06(ctx):
     f, n = gen_corpus(ctx, 1 if ctx.quick else 2, "framing", "corpus", keep_every=(5 if ctx.quick else 3))
     ctx.explore(dict(mode="pipeline", cfgs=[mk(flags=fl, hcap=h, ccap=c) for fl in (0, 2, 4, 6) for (h, c) in ((-1, -1), (2, 1))],
                      inputs_file=f, extra=dict(depth=3 if ctx.quick else 4)), "pipelines")
+
     cleanup(ctx)
     ctx.nontrivial = ctx.records
     ctx.need("generated framings replayed", ctx.records, 1000)
@@ -537,6 +590,25 @@ def plan_C10(ctx):
         "code one-shot and with a cut inside the number.  Reply status codes: all 1000 codes in the C08 generator.")
     for pos in ("expires", "clen", "cseq", "cexpires", "port", "q"):
         ctx.tlc("MC_Digits", simple_cfg("digits_%s.cfg" % pos, ["OffsMod = 65536", 'Pos = "%s"' % pos], ["Emit", "Arith"]), workers=4, min_records=100)
+    # out-of-range numeric headers inside whole messages: rejected one-shot AND under every two-call schedule
+    r = vlib.run_tlc("MC_GenMsg", genmsg_cfg(1, "bigclen", "C10"), workers=8, timeout=900)
+    if not r["ok"]: raise Machinery("TLC failed on MC_GenMsg bigclen:\n" + r["tail"])
+    ctx.states += r["distinct"]; ctx.transitions += r["generated"]
+    d = vlib.scratch("c10"); inp = os.path.join(d, "recs.out"); n = 0
+    with open(inp, "w") as f:
+        for line in open(r["out"], errors="replace"):
+            if not line.startswith('"{'): continue
+            n += 1
+            rec = json.loads(json.loads(line)); L = len(rec["wire"])
+            if ctx.quick and n % 4: continue
+            for cut in [L] + list(range(20, L - 4, 1 if not ctx.quick else 2)):
+                f.write(json.dumps(json.dumps(dict(rec, cuts=[L] if cut == L else [cut, L]))) + "\n")
+    rp = vlib.run_job(dict(mode="replay", inputs_file=inp, max_viol=200, extra=dict(drift_out="")), "c10msg")
+    ctx.records += rp["extra"]["records"]; ctx.impl_traces += rp["extra"]["records"]
+    ctx.tlc_runs.append(dict(module="MC_GenMsg", cfg="bigclen K=1 x every two-call schedule", states=r["distinct"], records=rp["extra"]["records"], decl_mismatch=rp["extra"]["decl_mismatch"]))
+    for v in rp.get("violations") or []:
+        v["property"] = "C10"; ctx.violation(v)
+    shutil.rmtree(d, ignore_errors=True); shutil.rmtree(r["dir"], ignore_errors=True)
     ctx.nontrivial = ctx.records
     ctx.need("digit strings x positions executed", ctx.records, 2000)
 
@@ -659,6 +731,23 @@ def plan_C19(ctx):
     ctx.nontrivial = ctx.records
     ctx.need("generated requests with signatures compared", ctx.records, 50000)
 
+MUT_ATOMS = [B(x) for x in (" ", "\t", "\r", "\n", "\r\n", "\"", "\\", "<", ">", ";", ",", ":", "=", "0", "9", "a", "*", ";;", " ;", "; ", ";x", ";lr", ",<sip:z>")]
+def py_mutants(wire, k, rnd):
+    """k seeded single-edit variants of a generated message (near-misses; many still parse successfully)"""
+    out = []
+    for _ in range(k):
+        w = list(wire); pos = rnd.randrange(1, len(w)); a = rnd.choice(MUT_ATOMS); op = rnd.randrange(5)
+        if op == 0: del w[pos]
+        elif op == 1: w[pos:pos] = a
+        elif op == 2: w[pos:pos + 1] = a
+        elif op == 3 and pos + 1 < len(w): w[pos], w[pos + 1] = w[pos + 1], w[pos]
+        else:
+            # insert right before a line end (dangling ';', trailing junk ...)
+            ends = [i for i, b in enumerate(w) if b == 13 and i > 20]
+            if ends: i = rnd.choice(ends); w[i:i] = a
+        out.append(w)
+    return out
+
 def plan_C05(ctx):
     ctx.extra["rule"] = ("FieldsNested (spec/Props.tla): first-line fields inside the consumed region and in order; stored headers in message "
         "order, disjoint, name and value inside the header's own (folded) line, only WS ':' LWS between them, value trimmed; name-addr "
@@ -666,7 +755,8 @@ def plan_C05(ctx):
         "of the first header of their type; body from the blank line to the returned offset; raw message = [start, offset). TLC checks it "
         "on the transcription for every generated message (invariant Nested, with AutoEqDecl) and JUDGES the real results (Judge_Msg): "
         "every message is executed on the real parser one-shot and with a cut, the real observation is written out and evaluated by TLC.")
-    parts = [(1, "hdrs"), (2, "hdrs"), (2, "caps")] + ([] if ctx.quick else [(3, "caps"), (1, "framing")])
+    parts = [(1, "hdrs"), (2, "hdrs"), (2, "caps"), (1, "framing")] + ([] if ctx.quick else [(3, "caps"), (2, "framing")])
+    rnd = random.Random(ctx.seed)
     for K, part in parts:
         cfg = ("genmsg_%s_%d.cfg" % (part, K), "SPECIFICATION Spec\nCONSTANTS\n  OffsMod = 65536\n  K = %d\n  Part = \"%s\"\n  Prop = \"corpus\"\nINVARIANTS Emit AutoEqDecl Nested\nCHECK_DEADLOCK FALSE\n" % (K, part))
         r = vlib.run_tlc("MC_GenMsg", cfg, workers=8, timeout=1500)
@@ -674,7 +764,7 @@ def plan_C05(ctx):
         ctx.states += r["distinct"]; ctx.transitions += r["generated"]
         # real results, one-shot and with a cut in the middle, all judged by TLC (sampled when there are many)
         d = vlib.scratch("c05"); inp = os.path.join(d, "recs.out"); n = 0
-        every = 1 if (K == 1 or not ctx.quick) else 5
+        every = 1 if (K == 1 and part != "framing") or not ctx.quick else (5 if part != "framing" else 9)
         with open(inp, "w") as f:
             for line in open(r["out"], errors="replace"):
                 if not line.startswith('"{'): continue
@@ -683,6 +773,9 @@ def plan_C05(ctx):
                 rec = json.loads(json.loads(line))
                 for cuts in ([len(rec["wire"])], [len(rec["wire"]) // 2, len(rec["wire"])], [len(rec["wire"]) - 3, len(rec["wire"])]):
                     f.write(json.dumps(json.dumps(dict(rec, cuts=cuts, src="gen"))) + "\n")
+                # near-miss variants: whatever still parses successfully must satisfy the predicate as well
+                for w in py_mutants(rec["wire"], 4 if part != "framing" else 1, rnd):
+                    f.write(json.dumps(json.dumps(dict(rec, wire=w, cuts=[len(w)], src="gen"))) + "\n")
         dr = os.path.join(d, "all.ndjson")
         rp = vlib.run_job(dict(mode="replay", inputs_file=inp, extra=dict(drift_out=dr, dump_all=True)), "c05")
         ctx.records += rp["extra"]["records"]; ctx.impl_traces += rp["extra"]["records"]
